@@ -21,7 +21,7 @@ class C18(Prop):
             "subprocess; oracle: sha256 of all output files equal; one evaluation = one export; non-trivial = the reference "
             "export contains packets; distinct = spec digests")
     reach = ["hashseed_variants", "cwd_env_variants", "twice_in_process", "after_other_world", "cli_subprocess",
-             "quic_world", "quic_zero_len_cid", "output_nonempty"]
+             "quic_world", "quic_zero_len_cid", "output_nonempty", "output_path_reused"]
 
     def plan(self, tier):
         p = super().plan(tier)
@@ -32,7 +32,8 @@ class C18(Prop):
     def gen(self, seed, idx, tier):
         R = Rng(seed, "C18")
         cfg = {"records_max": 5, "len_max": 1500, "isn_wrap": False, "seg_pct": 60, "quic_pct": 50,
-               "quic": {"small": True, "zero_cid_pct": 40, "ncid_pct": 50}}
+               "quic": {"small": True, "zero_cid_pct": 40, "ncid_pct": 50, "hs_dup_pct": 40, "long_ch_pct": 40,
+                        "crypto_reorder_pct": 50}}
         spec = gen.gen_mixed_world(R.fork("world"), cfg, nconn=R.range(1, 3), with_noise=R.chance(30))
         spec["prop"] = "C18"
         spec["cli"] = random_cli(R.fork("cli"), [c for c in spec["conns"] if c["proto"] in ("tls", "quic")],
@@ -95,6 +96,11 @@ class C18(Prop):
             out.exports += 1
             out.count("reach:cwd_env_variants")
             judge("env-cwd-%d" % i, r)
+        # the output path already holds a (longer) file from an earlier export
+        r = lane.sut(0).run(ex["capture"], ex["keylog"], ex["argv"], pre_out=ref.out + b"\x00" * 64 + ref.out[:500])[0]
+        out.exports += 1
+        out.count("reach:output_path_reused")
+        judge("output-path-holds-older-longer-file", r)
         # twice in one process
         rr = lane.sut(0).run(ex["capture"], ex["keylog"], ex["argv"],
                              extra_runs=[dict(capture=ex["capture"], keylog=ex["keylog"], argv_opts=ex["argv"])])
